@@ -296,6 +296,40 @@ def oracle(plan, res):
             v.append(("C11.routing", "child %s processed forwarded events %s, parent processed them in order %s" % (c, got, par_fwd)))
         if len(set(got)) != len(got):
             v.append(("C11.routing", "child %s processed a forwarded event twice: %s" % (c, got)))
+    # completeness: what the parent forwards or sends to #_kid while the invocation is running must be put
+    # into that child's external queue (whether the child gets to process it before it ends is another matter)
+    child_extq = {c: b.ext.get(c) for c in children}
+    for (c, (s_aiv, s_aun)) in pairs:
+        q = child_extq.get(c)
+        if not q:
+            continue
+        got_q = [(r[SEQ], r[6]["name"]) for r in lines if r[KIND] == "enq<" and r[SESS] == q]
+        # the interval ends when cancelling begins (beforeUninvoking) or the child finished on its own
+        buns = [r[SEQ] for r in lines if r[SESS] == "i0" and r[KIND] == "bun" and r[SEQ] > s_aiv]
+        s_end = min(buns) if buns else 10 ** 12
+        child_done = [r[SEQ] for r in lines if r[SESS] == c and r[KIND] == "bcp"]
+        if child_done:
+            s_end = min(s_end, min(child_done))
+        if facts["autofwd"]:
+            for r in lines:
+                if r[KIND] == "deq>" and r[SESS] == pext and r[6].get("name", "").startswith("fwd.") and s_aiv < r[SEQ] < s_end:
+                    nm = r[6]["name"]
+                    # forwarded right after the dequeue, before the parent's own processing of the next event
+                    nxt = [x[SEQ] for x in lines if x[KIND] == "deq>" and x[SESS] == pext and x[SEQ] > r[SEQ]]
+                    lim = min(nxt) if nxt else 10 ** 12
+                    if lim > s_end:
+                        continue  # cancellation began before the forwarding window closed: either outcome
+                    if not any(r[SEQ] < sq < lim and n == nm for (sq, n) in got_q):
+                        v.append(("C11.routing", "parent dequeued %s (seq %d) while the invocation of %s was running with autoforward, but it was never put into the child's queue" % (nm, r[SEQ], c)))
+                        break
+        open_send = None
+        for r in lines:
+            if r[SESS] == "i0" and r[KIND] == "bxc" and "/send[" in r[5]:
+                open_send = r
+            elif r[SESS] == "i0" and r[KIND] == "axc" and open_send is not None and r[5] == open_send[5]:
+                if s_aiv < open_send[SEQ] and r[SEQ] < s_end and "inv" in open_send[5]:
+                    pass
+                open_send = None
     for s in b.invokeid:
         if s.startswith("i"):
             bad = [r[5]["name"] for r in lines if r[SESS] == s and r[KIND] == "ev" and r[5]["name"] == "tok"]
